@@ -3,7 +3,7 @@ executable form of each property as monitor.  Used only AFTER an obligation has 
 (PYTHONPATH); finding none proves nothing and never turns a refutation into a pass.
 
 The generator deliberately avoids the option combinations of the OPEN known findings, so that the input it reports belongs to the refuted obligation and not to a
-finding that is already listed:  init.run_in_parallel (D6/D23), projections together with random initial directions (D24), a growing initial set with npt > n+1 (O12: ZeroDivisionError), an objective that is NaN everywhere
+finding that is already listed:  init.run_in_parallel (D6/D23), projections together with random initial directions (D24), an objective that is NaN everywhere
 (F-C10f), a regulariser together with scaling_within_bounds (D11), logging.save_xk / save_rk (D20).
 
 usage: falsify2.py <Cxx> [n_scenarios]     exit 1 + one JSON line with the first failing input; exit 0 if none is found."""
@@ -131,9 +131,6 @@ def gen(rng, t):
             up['noise.multiplicative_noise_level'] = noise
     # ---- growing / initialisation / misc
     if rng.random() < 0.3 and c != 'proj':
-        # growing only with npt == n+1: with npt > n+1 the new direction orthogonal to a set that already spans R^n is the zero vector and
-        # add_new_direction_while_growing divides by its norm (ZeroDivisionError, observation O12 in DESIGN.md section 10.5)
-        kw['npt'] = n + 1
         up['growing.ndirs_initial'] = int(rng.integers(1, kw['npt']))
         if rng.random() < 0.5:
             up['growing.num_new_dirns_each_iter'] = int(rng.integers(0, 3))
